@@ -91,4 +91,27 @@ example : compile (fun d : Def Nat => d.body != 1) (fun _ d => if d.body == 2 th
     [⟨"A", ⟨"M1", 0, false⟩, 0⟩, ⟨"B", ⟨"M1", 0, false⟩, 1⟩, ⟨"C", ⟨"M2", 1, true⟩, 2⟩] =
     [Ev.emitted "M1" "A" "t", Ev.genWarn "M2" "C", Ev.valWarn "B"] := by decide
 
+/-- **every event of the fold names its definition** (since fix `5af954a`), for any generator whose errors, when
+    they name a definition at all, name the one at hand -/
+theorem C10_generator_events_name_their_definition (gen : Def β → GenOut) (tlds : List (Def β))
+    (h : ∀ x n, gen x = .err (some n) → n = x.name) :
+    moduleSubjects warnSubject gen tlds = tlds.map (fun x => some x.name) := by
+  unfold moduleSubjects
+  apply List.map_congr_left
+  intro x _
+  cases hg : gen x with
+  | ok t => rfl
+  | err e =>
+    cases e with
+    | none => rfl
+    | some n => simp [warnSubject, h x n hg]
+
+/-- the fold as it was: a generator error without a subject leaves a definition that no event names -/
+theorem C10_old_fold_counterexample :
+    let d : Def Unit := ⟨"v", ⟨"M", 0, false⟩, ()⟩
+    moduleSubjects warnSubjectOld (fun _ => GenOut.err none) [d] = [none] ∧
+    moduleSubjects warnSubject (fun _ => GenOut.err none) [d] = [some "v"] := by
+  decide
+
+
 end Props.C10
